@@ -78,6 +78,8 @@ def gen_spec(rng, cls):
                                             "num_steps": rng.choice([1, 1, 2, 5])}}
     if cls == "Dipole":
         ang = round(rng.choice([-1, 1]) * rng.uniform(0.02, 0.6), 3)       # angle = 0 -> NaN (F8, owned by C09): not generated
+        if rng.random() < 0.3:      # bends of 90 degrees and more take the other exit-position branch (c2) of the Bmad-X body
+            ang = round(rng.choice([-1, 1]) * rng.uniform(1.6, 2.6), 3)
         g = round(rng.uniform(0.0, 0.05), 3)
         fi = rng.choice([0.0, 0.5, round(rng.uniform(0, 0.7), 2)])
         return {"cls": "Dipole", "kw": {"length": L, "angle": ang, "dipole_e1": rng.choice([0.0, round(rng.uniform(-0.3, 0.3), 3)]),
@@ -215,6 +217,28 @@ def run_case(run, case):
     if spec["cls"] == "Drift":
         out = make(spec).track(beam(parts, E0)).particles.tolist()
         return straight_line_oracle(spec, E0, parts, out)
+    if spec["cls"] == "Quadrupole":
+        return onaxis_oracle(spec, E0, parts)
+    return None
+
+
+def onaxis_oracle(spec, E0, parts):
+    """A particle on the axis of an aligned quadrupole sees no field: Bmad-X tracking must move it exactly like a Bmad-X drift of the
+    same length, for every k1, tilt, number of steps and for SIZEABLE energy offsets (both branches of low_energy_z_correction), at
+    the case's energy and at a few MeV where the velocity dependence matters."""
+    import copy
+    q = copy.deepcopy(spec)
+    q["kw"]["misalignment"] = [0.0, 0.0]
+    d = {"cls": "Drift", "kw": {"length": spec["kw"]["length"]}}
+    deltas = [3e-3, -2e-2, 5e-2, -5e-2, 1e-4]
+    ps = [[0.0, 0.0, 0.0, 0.0, (parts[0][4] if parts else 0.0), dl, 1.0] for dl in deltas]
+    for E in (E0, 3.0e6, 6.0e6):
+        a = make(q).track(beam(ps, E)).particles
+        b = make(d).track(beam(ps, E)).particles
+        dev = close_parts(a, b, 1e-9, 1e-11)    # the series branch of low_energy_z_correction is accurate to ~1e-13 L; defects show at >= 1e-8
+        if dev is not None:
+            return {"what": "on-axis particle: Bmad-X quadrupole differs from Bmad-X drift of the same length", "max_dev": dev, "energy": E,
+                    "particles": ps, "quadrupole": a.tolist(), "drift": b.tolist()}
     return None
 
 
